@@ -264,7 +264,7 @@ def run(ctx):
     ctx.rule = ("MinErrorFlow on random DAGs (<= 5 nodes) and cyclic digraphs (<= 6 nodes) with <= 6 edges, values 0..6 (int) or dyadic floats, "
                 "edges without the attribute (ignored), ignore lists, error scalings {0, 1/4, 1/2, 1}, additional starts/ends, sparsity lambda (DAGs), "
                 "few_flow_values_epsilon {0, 1/4, 1/2, 1, 2}; every 4th case node-weighted; non-trivial = >= 1 conservation row and >= 1 charged edge")
-    n = ctx.budget(260, 6000)
+    n = ctx.budget(700, 10000)
     for i in range(n):
         rng = ctx.rng("mef", i)
         kw, info = gen2.rand_mef(rng, node_mode=(i % 4 == 3))
